@@ -238,11 +238,15 @@ Definition are_joinable (s : st) (b1 b2 : nat) : bool * st :=
 
 Definition join_cfg (s : st) (b1 b2 : nat) (code : bool) (zero1 : bool) : st :=
     if code then
+      (* an empty block2 that block1 does not fall into is unreachable: its successors are dropped *)
+      let falls := zero1 || existsb (fun e => is_ft e && node_eqb (src e) (NB b1)) (in_edges s b2) in
+      let keep_out := negb (bsize (the_blk s b2) =? 0) || falls in
       let s := fold_left (fun s e => if is_ft e && node_eqb (src e) (NB b1) then set_cfg s (cfg_discard e (cfg s)) else s) (in_edges s b2) s in
       let s := if zero1
                then fold_left (fun s e => set_cfg s (cfg_update_edge (cfg s) e (retarget_edge e (NB b1)))) (in_edges s b2) s
                else fold_left (fun s e => set_cfg s (cfg_discard e (cfg s))) (in_edges s b2) s in
-      let s := fold_left (fun s e => set_cfg s (cfg_update_edge (cfg s) e (resource_edge e (NB b1)))) (out_edges s b2) s in
+      let s := fold_left (fun s e => if keep_out then set_cfg s (cfg_update_edge (cfg s) e (resource_edge e (NB b1)))
+                                     else set_cfg s (cfg_discard e (cfg s))) (out_edges s b2) s in
       remove_function_block_aux s b2
     else s.
 
